@@ -131,7 +131,7 @@ def input_hash(extra=""):
         files += util.walk_files(os.path.join(util.REPO, sub))
     files += [os.path.join(util.REPO, "Cargo.toml"), os.path.join(util.REPO, "Cargo.lock")]
     files += util.walk_files(os.path.join(util.VERIF, "corpus"))
-    files += [os.path.join(util.VERIF, "vlib", f) for f in ("corpus.py", "build.py", "facts.py", "model.py", "ast.py", "util.py", "doctests.py")]
+    files += [os.path.join(util.VERIF, "vlib", f) for f in ("corpus.py", "build.py", "facts.py", "model.py", "ast.py", "util.py", "doctests.py", "dynwit.py", "grules.py")]
     files += util.walk_files(os.path.join(util.VERIF, "tools"), skip_dirs=("target", ".git", ".cargo"))
     h = util.sha256_files(files)
     tv = util.run(["rustc", "+nightly", "-vV"]).stdout
